@@ -174,7 +174,7 @@ func (blt *CachedLivenessTester) printStats(logger *log.Logger) {
 
 	nonLiveCacheLen := 0
 	var nonLiveCacheCapPct float64 = 0
-	if blt.ipCacheLive != nil {
+	if blt.ipCacheNonLive != nil {
 		nonLiveCacheLen = blt.ipCacheNonLive.Len()
 		nonLiveCacheCapPct = float64(nonLiveCacheLen) / float64(blt.ipCacheNonLive.Cap()) * 100
 	}
